@@ -9,7 +9,7 @@ from sa.db import AnalysisError, FunctionInfo, dotted, mangle, norm_stmt, own_no
 from sa.flow import Interp
 
 CLAIM = {
-    "text": "Decides progress of every user-space send loop for every sign pattern of (chunk lengths, bytes accepted) by a finite abstract interpretation of the real loop bodies over the sign domain {0,+} (deque of buffers = list of signs up to length 3, resolved helpers such as adjust_leftover_buffer inlined, send primitives stubbed): from every abstract pre-state that satisfies the loop condition each iteration either leaves the loop or makes progress on the well-founded measure (an element removed, an element replaced by a strict suffix of itself, the sent-counter grown by a positive amount); decides the byte accounting (the loop advances by the count returned by the send primitive of the same iteration, the next offered slice starts at the accumulated count, negative counts raise) and the single hand-off of the producer's generator to exactly one transport call. Also decided: (wait) the selector wait of the retry wrapper is min(remaining budget, retry interval) and the unbounded select() is confined to the arm where that wait is infinite, and the time budget is threaded freshly through the blocking send path (typestate of C11); (tls) the async TLS writer flushes under the send lock only and every send entry point hands the whole plaintext backlog to the SSL object before it returns (rules of C08). (drain) every transport write of the asyncio adapter is followed by the awaited drain (rule of C20).",
+    "text": "Decides progress of every user-space send loop for every sign pattern of (chunk lengths, bytes accepted) by a finite abstract interpretation of the real loop bodies over the sign domain {0,+} (deque of buffers = list of signs up to length 3, resolved helpers such as adjust_leftover_buffer inlined, send primitives stubbed): from every abstract pre-state that satisfies the loop condition each iteration either leaves the loop or makes progress on the well-founded measure (an element removed, an element replaced by a strict suffix of itself, the sent-counter grown by a positive amount); decides the byte accounting (the loop advances by the count returned by the send primitive of the same iteration, the next offered slice starts at the accumulated count, negative counts raise) and the single hand-off of the producer's generator to exactly one transport call. Also decided: (wait) the selector wait of the retry wrapper is min(remaining budget, retry interval) and the unbounded select() is confined to the arm where that wait is infinite, and the time budget is threaded freshly through the blocking send path (typestate of C11); (tls) the async TLS writer flushes under the send lock only and every send entry point hands the whole plaintext backlog to the SSL object before it returns (rules of C08). (drain) every transport write of the asyncio adapter is followed by the awaited drain (rule of C20). Round 4: every chunk of an iterable handed to a send_all_from_iterable-style function is consumed - no truthiness test on `next(it, default)`, no truncating adaptor.",
     "note": "Assumptions (stated): a non-blocking send never returns 0 for a non-empty buffer (it raises EAGAIN, which the retry wrapper turns into a bounded wait - C11) and returns 0 for an all-empty offer; SC_IOV_MAX is at least the abstract list bound. Not decided: wall-clock termination, kernel behaviour, byte-for-byte equality on the wire.",
     "technique": "finite abstract interpretation of the loop bodies over the sign domain with a small relational refinement (strict-suffix facts from the branch conditions), def-use checks for the accounting, cardinality-on-paths for the hand-off",
 }
@@ -330,8 +330,83 @@ def check_wait(eng, run):
     c20.check_wake(eng, _As(run, "C04.drain"))  # never hangs on a dead connection: the write flow control wakes / fails every suspended sender
 
 
+LOSSY_ITER = {"zip": "truncates to the shortest input", "islice": "takes a prefix", "takewhile": "stops at the first falsy element", "dropwhile": "drops a prefix",
+              "set": "drops duplicates and order", "frozenset": "drops duplicates and order", "compress": "drops elements"}
+
+
+def check_iterable_consumed(eng, run):
+    """every chunk of the iterable handed to a `send_all_from_iterable`-style function is consumed: the iterable (or an iterator made
+    from it) only meets whole-sequence consumers; a `next(it, <default>)` whose result decides by *truthiness* whether the rest is
+    read confuses an empty chunk with exhaustion and drops everything behind it; prefix / truncating adaptors are lossy"""
+    n = 0
+    for fn in eng.db.all_functions():
+        if isinstance(fn.node, ast.Lambda):
+            continue
+        params = [a.arg for a in fn.params() if a.arg.startswith("iterable_of_")]
+        if not params or not fn.module.name.startswith("easynetwork.lowlevel"):
+            continue
+        nodes = list(own_nodes(fn.node))
+        alias = set(params)
+        for _ in range(2):
+            for st in nodes:
+                if isinstance(st, (ast.Assign, ast.AnnAssign)) and st.value is not None:
+                    v = st.value
+                    src_names = {x.id for x in ast.walk(v) if isinstance(x, ast.Name)}
+                    if isinstance(v, ast.Call) and (dotted(v.func) or "").split(".")[-1] in ("iter", "map", "filter", "chain", "from_iterable") and src_names & alias:
+                        for t in (st.targets if isinstance(st, ast.Assign) else [st.target]):
+                            if isinstance(t, ast.Name):
+                                alias.add(t.id)
+        uses = [c for c in nodes if isinstance(c, ast.Call) and any(isinstance(a, ast.Name) and a.id in alias for a in c.args)]
+        if not uses and not any(isinstance(x, ast.For) and isinstance(x.iter, ast.Name) and x.iter.id in alias for x in nodes):
+            continue
+        n += 1
+        probs = []
+        for c in uses:
+            nm = (dotted(c.func) or "").split(".")[-1]
+            if nm in LOSSY_ITER:
+                probs.append((c, f"`{nm}()` {LOSSY_ITER[nm]}"))
+            if nm == "next" and len(c.args) == 2:
+                # which name receives the result, and is it tested by truthiness?
+                tgt = None
+                for st in nodes:
+                    if isinstance(st, ast.NamedExpr) and st.value is c:
+                        tgt = st.target.id
+                    if isinstance(st, (ast.Assign, ast.AnnAssign)) and st.value is c:
+                        t0 = (st.targets if isinstance(st, ast.Assign) else [st.target])[0]
+                        tgt = t0.id if isinstance(t0, ast.Name) else None
+
+                def truthy(t):
+                    while isinstance(t, ast.UnaryOp) and isinstance(t.op, ast.Not):
+                        t = t.operand
+                    if isinstance(t, ast.BoolOp):
+                        return any(truthy(v) for v in t.values)
+                    if isinstance(t, ast.NamedExpr):
+                        return t.value is c
+                    return isinstance(t, ast.Name) and t.id == tgt and tgt is not None
+
+                tests = [x.test for x in nodes if isinstance(x, (ast.If, ast.While, ast.IfExp))]
+                if any(truthy(t) for t in tests):
+                    probs.append((c, "the result of `next(it, default)` is tested by truthiness: an empty chunk is taken for the end of the iterable"))
+        for c, why in probs[:1]:
+            run.finding("C04.acct", fn, _stmt_of(fn, c), f"{why}: the chunks behind it never reach the wire although the call reports success")
+        run.ob("C04.acct", f"{fn.module.name.split('.')[-2]}.{fn.short}:every-chunk-consumed", not probs, uses=len(uses))
+    run.floor("C04.acct functions consuming an iterable of chunks", n, 4)
+
+
+def _stmt_of(fn, node):
+    best = None
+    for x in own_nodes(fn.node):
+        if isinstance(x, ast.stmt) and any(y is node for y in ast.walk(x)):
+            if best is None or (x.lineno >= best.lineno and not isinstance(x, (ast.If, ast.With, ast.AsyncWith, ast.Try, ast.For, ast.While))):
+                best = x
+    return best if best is not None else fn.node
+
+
 def run(eng, run):
+    from sa.anchors import verify as _verify_anchor_names
+    _verify_anchor_names(eng, run)
     run.not_decided += NOT_DECIDED
+    check_iterable_consumed(eng, run)
     run.assumptions += ["a non-blocking send returns a positive count for a non-empty offer (EAGAIN is raised otherwise and handled by the retry wrapper) and 0 for an all-empty offer",
                         "SC_IOV_MAX >= 3 (the abstract list bound)"]
     check_prog(eng, run)
